@@ -1,7 +1,8 @@
 import MakoModel.Encoding.Lemmas
 /-! Lemmas about the generated module: its magic comment is what `parse_encoding` finds, `repr` adds only ASCII,
 a module made of ASCII scaffolding and encodable payload is encodable.  Obligations on the regenerated constants
-are stated here by name (`magic_format`, `module_file_has_magic`, `bom_is_utf8_bom`, `defaults_are_utf8`). -/
+are stated here by name (`magic_format`, `module_file_has_magic`, `bom_is_utf8_bom`, `defaults_are_utf8`,
+`bom_compared_by_codec`, `source_strips_bom`, `names_written_ascii`, `alias_table_has_utf8`). -/
 namespace MakoModel.Encoding
 open MakoModel.Basic
 
@@ -28,6 +29,10 @@ theorem defaults_are_utf8 :
 
 /-- the BOM branch compares the comment by codec (F-C18-1 repaired) -/
 theorem bom_compared_by_codec : Generated.Encoding.bomCompareByCodec = true := by decide
+
+/-- the regenerated alias table – the tested instance of `Env.isUtf8`, used by the driver – calls `"utf-8"` utf-8
+    (the interpreter's registry was probed and answered for the canonical name) -/
+theorem alias_table_has_utf8 : Generated.Encoding.utf8Aliases.contains utf8Name = true := by decide
 
 /-- `ModuleInfo.source` drops the BOM before decoding (F-C18-3 repaired) -/
 theorem source_strips_bom : Generated.Encoding.sourceStripsBom = true := by decide
